@@ -3,15 +3,19 @@ REGP_LIB = ["src/register-protocol.c", "src/crc-16-arc.c", "src/rfc1055.c", "src
             "src/endpoints/trivial.c", "src/endpoints/continuable-sink.c", "src/byte-buffer.c", "src/allocator.c"]
 CHECK = {
     "level": "model_checking",
-    "technique": "stateless bounded-exhaustive enumeration of every emit entry point x transport x memory width x field values x sizes x payload contents on a real RegP, compared octet for octet with an independent encoder of doc/regp.txt and fed back through the library's own receiver",
-    "rule": "a case fixes emitter, transport, memory width, answered request type, address and sequence number and runs every size x content (or payload value); each emission is compared with the reference encoding, received by a second RegP and compared field by field; every case is non-trivial",
+    "technique": "stateless bounded-exhaustive enumeration of every emit entry point x transport x memory width x field values x sizes x payload contents x request option bits on a real RegP, compared octet for octet with an independent encoder of doc/regp.txt and fed back through the library's own receiver (three receivers: large block, exact fit, one octet to spare); plus every emitter x transport x octet/chunk sink under a scripted sink that answers retry requests, short and zero-length writes and hard errors at every call position",
+    "rule": "a case fixes emitter, transport, memory width, answered request type, address and sequence number and runs every size x content (or payload value); each emission is compared with the reference encoding, received by three further RegP instances and compared field by field; a sink-answer case fixes emitter, transport, memory width, answered type, sink kind and first answer and runs frames x every call position x second answer (non-trivial when at least one scripted answer was reached); every other case is non-trivial",
     "assumptions": ["addresses, sequence numbers, payload contents from the closed sets in the harness (SLIP control octets included); sizes as stated in the bound",
                     "the WORD-SIZE-16 bit of payload-less error responses is taken from the emitted frame (doc/regp.txt does not fix it); so are the WORD-SIZE-16 bit, sequence number and address of meta messages ('only the meta field is used')",
                     "the session's sequence counter is neither written nor read: request cases run on an instance that has emitted N earlier requests (N in {0, 1, 0xc0db, 0xffff}), the number is taken from the emitted frame and must be its predecessor's plus one; the first number of a session is not fixed by the statement",
+                    "the request frame handed to a responder carries its WORD-SIZE-16 bit equal to and different from the attached memory's width, and (blocks <= 4) every combination of its two checksum bits; for an acknowledgement of a request of the other word size the frame's own WORD-SIZE-16 bit says whether the n units handed over are octets or words (the payload block holds n words), and refusing such a request without emitting anything is admitted",
+                    "a receiver has room for a frame when its allocator block is at least sizeof(RPFrame) plus the raw frame length (the capacity the library reports as buffer size); the receiving instances differ from the emitter in attached memory width and in how their source delivers (chunks, octets, chunks through a 64-octet scratch buffer)",
+                    "sink answers (EAGAIN, EINTR, a short write of one octet / of all but one octet, a zero-length write, EIO; octet sinks: no short writes): nothing is demanded of an emission that reports failure; one that reports success must have put exactly the reference octets on the wire, and must not need more than 4 x frame length + 64 sink calls (clause hang); scripts with one or two deviations, the second at the following call (thorough: at every later call); frames of 0..5 units (thorough 0..8), 3 contents, 2 addresses (thorough 7) / 2 payload values",
                     "header checksum covers the six header words plus the payload-checksum word when present (convention fixed by the wire images in t-register-protocol.c, used as anchors)"],
     "harnesses": [{
         "name": "c08_emit", "src": "harness/c08_emit.c", "shape": "espace", "opt": "-O1",
         "lib": REGP_LIB, "min_outcomes": 5,
-        "require_outcomes": {"any": ["request-roundtrip", "ack-roundtrip", "error-response-roundtrip", "meta-roundtrip", "sequence-wraps"]},
+        "require_outcomes": {"any": ["request-roundtrip", "ack-roundtrip", "error-response-roundtrip", "meta-roundtrip", "sequence-wraps",
+                                     "sink-retry-request", "sink-short-write", "sink-zero-length-write", "sink-hard-error"]},
     }],
 }
